@@ -260,10 +260,13 @@ def corr(self, other, where=(-inf, inf), lag=0, clip="pre"):
     mask = self.isna() | other.isna()
     self = self.mask(mask)
     other = other.mask(mask)
+    # evaluated first so that operands closed on different sides raise ClosedMismatchError
+    # even when a zero standard deviation makes the result NaN
+    covariance = self.cov(other, where)
     denominator = self.clip(*where).std() * other.clip(*where).std()
     if denominator == 0:
         return np.nan
-    return self.cov(other, where) / denominator
+    return covariance / denominator
 
 
 def _get_stairs_method(name):
